@@ -58,6 +58,10 @@ pub struct TypeDump {
     pub clone_ops: Option<Result<Vec<String>, String>>,
     pub drop_ops: Option<Result<Vec<String>, String>>,
     pub eq_ops: Option<Result<Vec<String>, String>>,
+    /// structural problems of the generated functions: `(function, problem)`
+    /// — an instruction after a block's terminator, a block without
+    /// terminator, a jump to a label that has no block
+    pub malformed: Vec<(&'static str, String)>,
 }
 
 #[derive(Clone, Debug)]
@@ -347,6 +351,50 @@ fn ops_of(item: &Item, name_of: &dyn Fn(usize) -> String) -> Vec<String> {
     out
 }
 
+/// Every block of a function must end in exactly one terminator and every
+/// label jumped to must have a block (what the code generator relies on).
+fn malformed_of(item: &Item) -> Vec<String> {
+    let mut out = vec![];
+    let defined: Vec<_> = item.blocks.iter().map(|b| b.label).collect();
+    for (k, b) in item.blocks.iter().enumerate() {
+        let term = |i: &Instruction| {
+            matches!(
+                i,
+                Instruction::Jump(_) | Instruction::Switch { .. } | Instruction::Return(_)
+            )
+        };
+        match b.instructions.iter().position(term) {
+            None => out.push(format!("block {k} has no terminator")),
+            Some(p) if p + 1 != b.instructions.len() => out.push(format!(
+                "block {k} has {} instruction(s) after its terminator",
+                b.instructions.len() - p - 1
+            )),
+            _ => {}
+        }
+        for i in &b.instructions {
+            let targets: Vec<_> = match i {
+                Instruction::Jump(l) => vec![*l],
+                Instruction::Switch {
+                    branches, default, ..
+                } => branches
+                    .iter()
+                    .map(|x| x.1)
+                    .chain(std::iter::once(*default))
+                    .collect(),
+                _ => vec![],
+            };
+            for l in targets {
+                if !defined.contains(&l) {
+                    out.push(format!("block {k} jumps to a label that has no block"));
+                }
+            }
+        }
+    }
+    out.sort();
+    out.dedup();
+    out
+}
+
 pub(crate) fn dump_types(ctx: &mut LowerCtx<'_>) -> Dump {
     let n = ctx.type_info.ty_pool.verif_len();
     let refs: Vec<TyRef> = (0..n).map(TyRef::verif_from_index).collect();
@@ -377,11 +425,22 @@ pub(crate) fn dump_types(ctx: &mut LowerCtx<'_>) -> Dump {
         }
         let aggregate = matches!(nodes[id], Node::Record(_) | Node::Enum(_));
         let name_of = |i: usize| tystr(&nodes, &layouts, i);
+        let mut malformed = vec![];
         let (clone_ops, drop_ops, eq_ops) = if aggregate {
+            let c = guard(|| hooks::generate_clone(ctx, ty));
+            let d = guard(|| hooks::generate_drop(ctx, ty));
+            let e = guard(|| hooks::generate_eq(ctx, ty));
+            for (name, item) in [("clone", &c), ("drop", &d), ("eq", &e)] {
+                if let Ok(item) = item {
+                    for m in malformed_of(item) {
+                        malformed.push((name, m));
+                    }
+                }
+            }
             (
-                Some(guard(|| ops_of(&hooks::generate_clone(ctx, ty), &name_of))),
-                Some(guard(|| ops_of(&hooks::generate_drop(ctx, ty), &name_of))),
-                Some(guard(|| ops_of(&hooks::generate_eq(ctx, ty), &name_of))),
+                Some(c.map(|i| ops_of(&i, &name_of))),
+                Some(d.map(|i| ops_of(&i, &name_of))),
+                Some(e.map(|i| ops_of(&i, &name_of))),
             )
         } else {
             (None, None, None)
@@ -407,6 +466,7 @@ pub(crate) fn dump_types(ctx: &mut LowerCtx<'_>) -> Dump {
             clone_ops,
             drop_ops,
             eq_ops,
+            malformed,
         });
     }
     Dump { types }
